@@ -11,9 +11,10 @@
    What is bound strictly (robust against the scheduling of the logging goroutines):
      * every write outcome: "ok" only for a payload that equals the true piece (else bad[p] becomes non-empty and
        SafeHave fails), a good payload is rejected only if another write of the same piece overlapped it;
-     * provenance: every payload written was handed out before by some OTHER peer's storage with the same
-       piece index and the same good/bad flag (so a wrong payload must come from the corrupting peer), and a
-       peer hands out only pieces it holds, with the right bytes unless it is the corrupter (pieces in cbad);
+     * provenance: every payload written was handed out before by some peer's storage with the same piece index
+       and the same good/bad flag, each handed-out payload being written at most once (so a wrong payload must come
+       from the corrupting peer), and a peer hands out only pieces it holds, with the right bytes unless it is the
+       corrupter (pieces in cbad);
      * connection endpoints: conn_add / conn_drop per endpoint, never more than maxc[p], no duplicates;
      * completion: torrent_complete, a Download that returns nil and receive_piece only when every (that) piece is
        stored or being stored with good bytes; a Download returns an error only for a stopped agent;
@@ -22,7 +23,8 @@
    What is NOT bound (the record is produced after the effect, so its position is not reliable): the guard of
    Request (pipeline limit, target holds the piece - those are C15/C16), MayClose, the requester of a Serve and the
    sender of a WStart (the payload is matched by piece index and flag; `to` is "any").  After Leave(p) the remaining
-   records of p's own scheduler are consumed without effect (its in-flight Serve records still count).          *)
+   networkevent records of p's own scheduler are consumed without effect; its storage records (Serve, WStart,
+   WEnd) are still bound - scheduler.Stop takes a while and pieces written meanwhile may still be served.       *)
 EXTENDS Swarm, Json, TLC, Sequences
 Trace == ndJsonDeserialize("trace.ndjson")
 VARIABLE l
@@ -43,8 +45,9 @@ Range(s) == {s[k] : k \in 1..Len(s)}
 Idx(s, x) == CHOOSE k \in 1..Len(s) : s[k] = x
 \* pieces stored or being stored with good bytes (the completion bit is set inside the write window)
 Avail(p) == have[p] \cup {w.piece : w \in {x \in writing[p] : x.good}}
-\* identical payloads in flight are interchangeable: they are numbered 1..k and the highest number is consumed first
-Same(p, i, g) == {m \in net : m.from = p /\ m.piece = i /\ m.good = g}
+\* payloads in flight with the same piece index and the same good/bad flag are interchangeable for the checks made
+\* here (the sender of a written payload is not observable): they are numbered 1..k, the highest number is consumed first
+Same(i, g) == {m \in net : m.piece = i /\ m.good = g}
 Mine == R.p \in Peers /\ R.p \in joined /\ R.p \notin left
 
 TReset == /\ IsEvent("reset")
@@ -71,7 +74,11 @@ TRet == /\ IsEvent("Ret") /\ R.p \in joined
               /\ dl' = [dl EXCEPT ![R.p] = "ok"]
            \/ /\ R.res = "stopped" /\ R.p \in left /\ dl[R.p] = "stopped" /\ UNCHANGED dl
         /\ UNCHANGED <<cfgv, joined, left, have, bad, conn, req, inv, net, writing>>
-TLeave == IsEvent("Leave") /\ Leave(R.p)
+\* the harness is about to call scheduler.Stop: from here on p counts as gone (its scheduler keeps running until the
+\* shutdown event is applied: its storage records are still bound, its connection bookkeeping is not)
+TLeave == /\ IsEvent("Leave") /\ R.p \in MayLeave /\ R.p \in present
+          /\ LeaveEff(R.p)
+          /\ UNCHANGED <<cfgv, joined, have, bad, net, writing>>
 
 TAddTorrent == /\ IsEvent("add_torrent") /\ Mine
                /\ R.bits = np /\ R.cap = maxc[R.p]
@@ -92,16 +99,16 @@ TOther    == IsEvent("other") /\ UNCHANGED vars
 \* storage handed out piece i (also by a peer that has just been stopped: the payload may still arrive)
 TServe == /\ IsEvent("Serve") /\ R.p \in joined
           /\ \/ /\ R.res = "ok" /\ R.i \in Avail(R.p) /\ R.good = ServesGood(R.p, R.i)
-                /\ ServeEff(R.p, "any", R.i, R.good, 1 + Cardinality(Same(R.p, R.i, R.good)))
+                /\ ServeEff(R.p, "any", R.i, R.good, 1 + Cardinality(Same(R.i, R.good)))
              \/ /\ R.res = "err" /\ UNCHANGED net
           /\ UNCHANGED <<cfgv, joined, left, have, bad, conn, req, inv, writing, dl>>
-TWStart == /\ IsEvent("WStart") /\ Mine /\ R.i \in Pieces
-           /\ \E m \in net : /\ m.piece = R.i /\ m.good = R.good /\ m.from # R.p
-                             /\ \A m2 \in Same(m.from, m.piece, m.good) : m2.n <= m.n
+TWStart == /\ IsEvent("WStart") /\ R.p \in joined /\ R.i \in Pieces
+           /\ \E m \in Same(R.i, R.good) :
+                             /\ \A m2 \in Same(R.i, R.good) : m2.n <= m.n
                              /\ StartWriteEff(R.p, m, R.w, TRUE)
            /\ UNCHANGED <<cfgv, joined, left, have, bad, conn, req, inv, dl>>
 \* outcome of the write (see the module comment; "ok" for a wrong payload is let through so that SafeHave reports it)
-TWEnd == /\ IsEvent("WEnd") /\ Mine
+TWEnd == /\ IsEvent("WEnd") /\ R.p \in joined
          /\ \E w \in writing[R.p] :
               /\ w.n = R.w /\ w.piece = R.i /\ w.good = R.good
               /\ CASE R.res = "ok"  -> w.piece \notin have[R.p]
@@ -112,7 +119,7 @@ TWEnd == /\ IsEvent("WEnd") /\ Mine
          /\ UNCHANGED <<cfgv, joined, left, conn, net, dl>>
 
 \* records of a stopped peer's own scheduler
-TLeft == /\ l <= Len(Trace) /\ R.ev \notin {"reset", "Join", "Download", "Ret", "Leave", "Serve", "End"}
+TLeft == /\ l <= Len(Trace) /\ R.ev \notin {"reset", "Join", "Download", "Ret", "Leave", "Serve", "WStart", "WEnd", "End"}
          /\ R.p \in left /\ l' = l + 1 /\ UNCHANGED vars
 
 TEnd == /\ IsEvent("End") /\ R.p \in Agents /\ R.p \in joined
